@@ -11,7 +11,8 @@ FAMILIES = {
     "capRace": {"quick": 200, "thorough": 4000},   # competition for the connection window, then one competitor goes away
     "ctlB": {"quick": 200, "thorough": 4000},      # SETTINGS / PING bursts while the endpoint is blocked mid-frame
     "concBc": {"quick": 200, "thorough": 4000},    # peer changes MAX_CONCURRENT_STREAMS while streams are open
-    "conformSend": {"quick": 40, "thorough": 1500},  # TLC simulation runs of MC_Send (x ~3 behaviours each) replayed on the real client
+    "conformSend": {"quick": 40, "thorough": 1500},
+    "conformRecv": {"quick": 80, "thorough": 3000},  # TLC simulation runs of MC_Recv replayed on the real server (byte-exact)  # TLC simulation runs of MC_Send (x ~3 behaviours each) replayed on the real client
 }
 
 SEND_SLICE = {"module": "MC_Send", "cfg_quick": "MC_Send_quick.cfg", "cfg_thorough": "MC_Send_thorough.cfg",
@@ -20,12 +21,16 @@ SEND_SLICE = {"module": "MC_Send", "cfg_quick": "MC_Send_quick.cfg", "cfg_thorou
 
 WIRE_AB = ["mixA", "mixAd", "bpReset", "flowBs", "flowBc", "capRace", "ctlB", "concBc"]
 
+RECV_SLICE = {"module": "MC_Recv", "cfg_quick": "MC_Recv_quick.cfg", "cfg_thorough": "MC_Recv_thorough.cfg",
+              "constants": "2 streams, IW=6 CW=8, DATA {0,1,6} x padding {0,1} x END_STREAM, release {1,2}, 1 handle drop, 1 reset either side, target {6,10}, SETTINGS {1,8} applied at the peer's ACK; legal peer; leak rules at every quiescent state",
+              "timeout_thorough": 3000, "coverage": False, "workers": 8}
+
 PLAN = {
     "C01": {"rules": ["C01."], "families": WIRE_AB, "slices": [], "level": "exploration",
             "must_hit": ["C01.head", "C01.data", "C01.clean_end", "C01.trailers", "C01.info", "C01.push"]},
     "C02": {"rules": ["C02."], "families": WIRE_AB + ["conformSend"], "slices": [SEND_SLICE], "level": "model_checking",
             "must_hit": ["C02.stream_credit", "C02.conn_credit", "C02.exhausts"]},
-    "C03": {"rules": ["C03."], "families": WIRE_AB, "slices": [], "level": "exploration",
+    "C03": {"rules": ["C03."], "families": WIRE_AB + ["conformRecv"], "slices": [RECV_SLICE], "level": "model_checking",
             "must_hit": ["C03.conn_overcredit", "C03.stream_overcredit"]},
     "C04": {"rules": ["C04."], "families": WIRE_AB, "slices": [], "level": "exploration",
             "must_hit": ["C04.stream_kind", "C04.id_order", "C04.after_es", "C04.data_state", "C04.contiguous"]},
